@@ -219,8 +219,12 @@ namespace bloch::cli {
                 }
             }
 
-            addPathCandidate(paths, fs::current_path() / "library");
-            addPathCandidate(paths, fs::current_path() / "stdlib");
+            std::error_code cwdEc;
+            const fs::path cwd = fs::current_path(cwdEc);  // may have been removed
+            if (!cwdEc) {
+                addPathCandidate(paths, cwd / "library");
+                addPathCandidate(paths, cwd / "stdlib");
+            }
 
             return paths;
         }
